@@ -140,8 +140,13 @@ impl Circuit {
                 return Err(CircuitError::InvalidInst(i));
             }
             match inst.op {
-                Op::Input(_) => {
+                Op::Input(Input { party, input }) => {
                     if i != inst.out.0 as usize {
+                        return Err(CircuitError::InvalidInput(i, *inst));
+                    }
+                    // The input must exist, `eval` indexes `inputs[party][input]` unchecked.
+                    let party_inputs = self.input_regs.get(party as usize);
+                    if party_inputs.is_none_or(|&inputs| input as usize >= inputs) {
                         return Err(CircuitError::InvalidInput(i, *inst));
                     }
                 }
@@ -166,6 +171,12 @@ impl Circuit {
                 }
             }
             register_set[inst.out] = true;
+        }
+        // The output registers must not only exist, but must have been written to.
+        for &o in self.output_regs.iter() {
+            if !register_set.get(o.0 as usize).is_some_and(|set| *set) {
+                return Err(CircuitError::InvalidOutput(o));
+            }
         }
 
         Ok(())
